@@ -14,7 +14,8 @@ from enc import jsonable
 
 THEOREMS = ["C14_iteration_programs_well_formed", "C14_noop_projection_returns_self", "C14_noop_sort_returns_self",
             "C14_transfer_to_own_engine_returns_self", "C14_placeholders_never_nodes",
-            "C14_multi_engine_iteration_programs_well_formed", "C14_sql_programs_well_formed"]
+            "C14_multi_engine_iteration_programs_well_formed", "C14_sql_programs_well_formed",
+            "C14_partial_join_resolves_common_columns"]
 HDR = "From DR Require Import Model.CheckStruct.\nOpen Scope Z_scope.\n"
 
 
